@@ -96,6 +96,14 @@ public:
         FASTOR_ASSERT(src.self().size()==size(), "TENSOR SIZE MISMATCH");
         assign(*this, src.self());
     }
+    // Copy assignment copies the data like every other assignment. Without this overload the
+    // implicitly generated copy assignment is selected for a map of the same type and silently
+    // rebinds this map to the other buffer instead
+    FASTOR_INLINE TensorMap<T,Rest...>& operator=(const TensorMap<T,Rest...>& src) {
+        assign(*this, src);
+        return *this;
+    }
+    constexpr TensorMap(const TensorMap<T,Rest...>&) = default;
 
     // AbstractTensor and scalar in-place operators
     //----------------------------------------------------------------------------------------------------------//
